@@ -349,7 +349,7 @@ static void run_line(const std::string &line) {
     else if (cmd == "begin") { Slot &s = S(k.next()); s.g.beginConstruction(); s.delivered.clear(); }
     else if (cmd == "sync") { Slot &dst = S(k.next()); Slot &src = S(k.next()); dst.delivered = src.delivered; }   // driver bookkeeping only
     else if (cmd == "finish") S(k.next()).g.finishConstruction();
-    else if (cmd == "cand") { Slot &s = S(k.next()); std::string kind = k.next();
+    else if (cmd == "cand") { Slot &s = S(k.next()); std::string kind = k.next(); s.cand.clear();   // a call that throws leaves no remembered list (same on original and restored slots)
         if (kind == "aw") { TypeDepth ty = DEPTHS.at(k.next()); auto m = k.keyed(); s.cand = s.g.getCandidateConstructionPoints(ty, toInts(m["aw:"]), toInts(m["ll:"])); }
         else if (kind == "out") { TypeDepth ty = DEPTHS.at(k.next()); int out = k.ni(); auto m = k.keyed(); s.cand = s.g.getCandidateConstructionPoints(ty, out, toInts(m["ll:"])); }
         else { double tol = k.nd(); TypeRefinement cr = REFS.at(k.next()); int out = k.ni(); auto m = k.keyed(); s.cand = s.g.getCandidateConstructionPoints(tol, cr, out, toInts(m["ll:"])); }
